@@ -230,6 +230,32 @@ def run_env(**kw):
     return e
 
 
+def run_bounded(cmd, capture_output=True, cpu=120, fsize=256 << 20, **kw):
+    """subprocess.run for the tool and the drivers with what they write kept on disk and bounded: a command that never returns, or
+    that prints for ever (a prompt loop at end of input), ends with SIGXCPU / SIGXFSZ (negative return code) instead of exhausting
+    the harness' memory through a pipe.  Same result object as subprocess.run(capture_output=True)."""
+    import tempfile
+    d = ensure(os.path.join(BUILD, "tmp"))
+    fo = tempfile.TemporaryFile(dir=d)
+    fe = tempfile.TemporaryFile(dir=d)
+
+    def lim():
+        import resource
+        resource.setrlimit(resource.RLIMIT_CPU, (cpu, cpu + 5))
+        resource.setrlimit(resource.RLIMIT_FSIZE, (fsize, fsize))
+    kw.pop("stdout", None)
+    kw.pop("stderr", None)
+    try:
+        p = subprocess.run(cmd, stdout=fo, stderr=fe, preexec_fn=lim, **kw)
+        fo.seek(0)
+        fe.seek(0)
+        p.stdout, p.stderr = fo.read(fsize), fe.read(fsize)
+        return p
+    finally:
+        fo.close()
+        fe.close()
+
+
 # ------------------------------------------------------------------ TLC ----
 
 class TlcResult:
